@@ -781,6 +781,13 @@ func (c *VCtx) translateCall(sc *Scope, x *ECall) Val {
 	case "abool":
 		h := c.heap(st, "F:sync/atomic.Bool.v", ArrSort(SRef, SInt))
 		return Not(Eq(Select(h, arg(0)), IntLit(0)))
+	case "madein":
+		// madein(ch, "Func"): the channel was created by a make(chan) in the function with that contract key
+		lit, ok := x.Args[1].(*EStr)
+		if !ok {
+			unsup("madein needs a string literal naming the function")
+		}
+		return Eq(c.chanSite(arg(0)), IntLit(siteID(lit.V)))
 	case "resolved":
 		return c.isResolved(st, arg(0))
 	case "reserr":
